@@ -221,7 +221,8 @@ class C12:
                        'eintr': erng.random() < 0.4, 'pathtype': erng.choice(['str', 'Path'])},
                 # re-entrancy: at a seeded line event of the damaged import a callback (signal handler, finalizer, logging hook)
                 # imports ANOTHER text - damaged too - and returns; two imports are then in flight at once without any thread
-                'reenter': {'k_u': erng.randrange(1 << 30), 'which': erng.randrange(len(NESTED_TEXTS))} if erng.random() < 0.15 else None}
+                'reenter': {'k_u': erng.randrange(1 << 30), 'which': erng.randrange(len(NESTED_TEXTS))} if erng.random() < 0.15 else None,
+                'logging': 'DEBUG' if erng.random() < 0.08 else 'default'}
 
     def _gen_history(self, st):
         rng, frng, erng = st['ops'], st['faults'], st['env']
@@ -246,7 +247,8 @@ class C12:
         order2 = list(range(n))
         rng.shuffle(order2)
         return {'property': self.PROPERTY, 'mode': 'history', 'config': 'fault_free' if fault_free else 'fault_injecting',
-                'header': header, 'tokens': toks, 'order2': order2, 'warnings': 'error' if erng.random() < 0.08 else 'default'}
+                'header': header, 'tokens': toks, 'order2': order2, 'warnings': 'error' if erng.random() < 0.08 else 'default',
+                'logging': 'DEBUG' if erng.random() < 0.08 else 'default'}
 
     def summarize(self, plan):
         if plan['mode'] == 'history':
@@ -261,9 +263,11 @@ class C12:
         with warnings.catch_warnings():
             # interpreter environment knob: some runs treat every warning as an error (python -W error)
             warnings.simplefilter('error' if plan.get('warnings') == 'error' else 'ignore')
-            if plan['mode'] == 'history':
-                return self._exec_history(plan)
-            return self._exec_doc(plan)
+            from simkit.envknobs import debug_logging
+            with debug_logging(plan.get('logging') == 'DEBUG'):     # the application has switched logging to DEBUG
+                if plan['mode'] == 'history':
+                    return self._exec_history(plan)
+                return self._exec_doc(plan)
 
     @staticmethod
     def _render(doc, eol, final_newline, faults, blank_lines):
